@@ -10,7 +10,8 @@ open BufModel.Annot
 
 /-! ## exit status -/
 
-/-- `build`, `lint`, `breaking`, `format --exit-code` exit 0 exactly when there is nothing to
+/-- `build`, `lint`, `breaking`, `format` (in every output mode: `Cmd.format` carries the mode
+    `-d` / `-w` / `-o` / `--exit-code` as a parameter) exit 0 exactly when there is nothing to
     report: no annotation was printed, no "Failure: …" line, no format difference. -/
 theorem exit_zero_iff_nothing (c : Cmd) :
     c.run.exit = 0 ↔ c.run.printed = [] ∧ c.run.failureLine = false ∧ c.run.diff = false := by
@@ -24,7 +25,8 @@ theorem exit_zero_iff_nothing (c : Cmd) :
   · exact h
 
 /-- Status 100 exactly when the problem lies in the user's sources: annotations were printed,
-    an import could not be found, or `format --exit-code` found a difference. -/
+    an import could not be found, or `format --exit-code` found a difference — for every output
+    mode of `buf format` (see `format_diff_reported_iff` for when `diff` is set). -/
 theorem exit_100_iff_user_sources (c : Cmd) :
     c.run.exit = 100 ↔ c.run.printed ≠ [] ∨ c.run.final = .importNotExist ∨ c.run.diff = true := by
   have h := run_consistent c
@@ -55,10 +57,122 @@ example : (Cmd.lint [none] [none, some (.annots ex1 [ex2])]).run.printed.length 
 example : (Cmd.build [some (.annots ex1 [])]).run.exit = 100 := by decide
 example : (Cmd.breaking [none, some .importNotExist] []).run.exit = 100 := by decide
 example : (Cmd.lint [none] [some (.annots ex1 []), some .other]).run = { final := .other, printed := [], diff := false } := by decide
-example : (Cmd.format true [none] none true none).run.exit = 100 := by decide
-example : (Cmd.format true [none] none false none).run.exit = 0 := by decide
-example : (Cmd.format false [none] none true none).run.exit = 0 := by decide
-example : (Cmd.format true [none] (some .other) true none).run.exit = 1 := by decide
+private def mDiffExit : FmtMode := { diff := true, write := false, out := .stdout, exitCode := true }
+example : (Cmd.format mDiffExit true [none] none true .ok).run.exit = 100 := by decide
+example : (Cmd.format mDiffExit true [none] none false .ok).run.exit = 0 := by decide
+example : (Cmd.format { mDiffExit with exitCode := false } true [none] none true .ok).run.exit = 0 := by decide
+example : (Cmd.format mDiffExit true [none] (some .other) true .ok).run.exit = 1 := by decide
+
+/-! ## `buf format`: the verdict is the same in every output mode -/
+
+/-- `--exit-code` in EVERY mode — plain, `-d`, `-w`, `-d -w`, `-o X`, `-d -o X`: when nothing
+    operational goes wrong the exit status is 100 exactly when the flag is given and a file is
+    not formatted, 0 otherwise; no annotation and no "Failure:" line is printed. -/
+theorem format_exit_code_every_mode (m : FmtMode) (sw : Bool) (ctl : List Step) (f : Step) (d : Bool)
+    (io : FmtIO) (h : FmtClean m sw ctl f d io) :
+    (Cmd.format m sw ctl f d io).run.exit = (if m.exitCode && d then 100 else 0) ∧
+    (Cmd.format m sw ctl f d io).run.printed = [] ∧
+    (Cmd.format m sw ctl f d io).run.failureLine = false := by
+  simp only [Cmd.run, format, formatFull_clean h, fmtDeferred]
+  split <;> simp [Outcome.exit, Outcome.failureLine, Final.exit, exitCodeFileAnnotation]
+
+/-- The "difference found" verdict, completely, for every mode: it is reported exactly when
+    `--exit-code` is given, a difference exists, the flag combination is valid, and no step of
+    the run — controller, formatter, or an I/O step THE MODE PERFORMS — failed.  Together with
+    `exit_100_iff_user_sources` (which quantifies over all modes through `Cmd.format`): no mode
+    loses the 100 and no mode invents one. -/
+theorem format_diff_reported_iff (m : FmtMode) (sw : Bool) (ctl : List Step) (f : Step) (d : Bool)
+    (io : FmtIO) :
+    (Cmd.format m sw ctl f d io).run.diff = true ↔
+      m.exitCode = true ∧ d = true ∧ FmtClean m sw ctl f d io := by
+  constructor
+  · intro h
+    simp only [Cmd.run, format, formatFull] at h
+    by_cases hv : m.valid sw = true
+    · rw [hv] at h
+      simp only [Bool.not_true, Bool.false_eq_true, if_false] at h
+      cases hr : runSteps (ctl ++ [f]) with
+      | some o =>
+        rw [hr] at h
+        exact absurd h (by rw [runSteps_diff _ o hr]; decide)
+      | none =>
+        rw [hr] at h
+        have hall := (runSteps_eq_none_iff _).mp hr
+        by_cases hio : ∀ s ∈ m.ioSteps d io, s = none
+        · rw [fmtTail_clean m d io hio] at h
+          simp only [fmtDeferred] at h
+          split at h
+          · rename_i he
+            simp only [Bool.and_eq_true] at he
+            exact ⟨he.1, he.2, hv, fun s hs => hall s (List.mem_append_left _ hs),
+              hall f (List.mem_append_right _ (List.mem_singleton.mpr rfl)), hio⟩
+          · exact absurd h (by decide)
+        · obtain ⟨e, he⟩ := fmtTail_dirty m d io hio
+          rw [he, failStep_diff] at h
+          exact absurd h (by decide)
+    · have hv' : m.valid sw = false := by simpa using hv
+      rw [hv'] at h
+      simp only [Bool.not_false, if_true] at h
+      exact absurd h (by decide)
+  · rintro ⟨he, hd, hc⟩
+    subst hd
+    have := formatFull_clean hc
+    simp only [Cmd.run, format, this, fmtDeferred, he]
+    rfl
+
+/-- Two valid modes with the same `--exit-code` setting give the same exit status on the same
+    sources: the verdict does not depend on WHERE the result goes. -/
+theorem format_verdict_mode_independent (m1 m2 : FmtMode) (sw : Bool) (ctl : List Step) (f : Step)
+    (d : Bool) (io1 io2 : FmtIO) (he : m1.exitCode = m2.exitCode)
+    (h1 : FmtClean m1 sw ctl f d io1) (h2 : FmtClean m2 sw ctl f d io2) :
+    (Cmd.format m1 sw ctl f d io1).run.exit = (Cmd.format m2 sw ctl f d io2).run.exit := by
+  rw [(format_exit_code_every_mode m1 sw ctl f d io1 h1).1,
+    (format_exit_code_every_mode m2 sw ctl f d io2 h2).1, he]
+
+/-- Already formatted input exits 0 in every mode, with or without `--exit-code` — in particular
+    the second run after `-w` (which rewrote every changed file: `rewrote = d`; that re-formatting
+    the formatted file changes nothing is C07's idempotence). -/
+theorem format_formatted_input_exits_zero (m : FmtMode) (sw : Bool) (ctl : List Step) (f : Step)
+    (io : FmtIO) (h : FmtClean m sw ctl f false io) :
+    (Cmd.format m sw ctl f false io).run.exit = 0 := by
+  rw [(format_exit_code_every_mode m sw ctl f false io h).1]
+  simp
+
+/-- What each mode does besides exiting (clean run): the diff goes to stdout exactly with `-d`
+    when one exists; the formatted source goes to stdout only in the plain mode; files are
+    rewritten exactly with `-w` when a difference exists; the `-o` location is written exactly
+    without `-w` when `-o` names a path. -/
+theorem format_effects_by_mode (m : FmtMode) (sw : Bool) (ctl : List Step) (f : Step) (d : Bool)
+    (io : FmtIO) (h : FmtClean m sw ctl f d io) :
+    (formatFull m sw ctl f d io).2 =
+      { stdoutDiff := m.diff && d,
+        stdoutSource := !m.diff && !m.write && m.out == .stdout,
+        rewrote := m.write && d,
+        wroteOut := !m.write && m.out == .path } := by
+  rw [formatFull_clean h]
+
+/-- An invalid flag combination (`-w` with `-o`, `-w` on a source that cannot be rewritten) is an
+    operational error in every mode: status 1 with a "Failure:" line, nothing done. -/
+theorem format_invalid_mode_is_operational (m : FmtMode) (sw : Bool) (ctl : List Step) (f : Step)
+    (d : Bool) (io : FmtIO) (h : m.valid sw = false) :
+    (Cmd.format m sw ctl f d io).run.exit = 1 ∧ (Cmd.format m sw ctl f d io).run.failureLine = true ∧
+    (formatFull m sw ctl f d io).2 = FmtEffects.none := by
+  simp only [Cmd.run, format, formatFull, h, Bool.not_false, if_true]
+  refine ⟨?_, ?_, ?_⟩ <;> first | rfl | trivial
+
+-- non-vacuity: all 16 flag combinations exist, the 12 valid ones are clean on an all-ok run and
+-- give 100 exactly for the six with --exit-code when a difference exists
+example : FmtMode.all.length = 16 := by decide
+example : (FmtMode.all.filter (·.valid true)).length = 12 := by decide
+example : ((FmtMode.all.filter (·.valid true)).map fun m => (Cmd.format m true [none] none true .ok).run.exit)
+    = [0, 100, 0, 100, 0, 100, 0, 100, 0, 100, 0, 100] := by decide
+example : ∀ m ∈ FmtMode.all, (Cmd.format m true [none] none false .ok).run.exit = if m.valid true then 0 else 1 := by decide
+example : FmtClean mDiffExit true [none] none true .ok := by
+  refine ⟨by decide, by simp, rfl, by decide⟩
+-- a failing output step in `-d -o X --exit-code`: the diff was printed, the error wins
+example : formatFull { diff := true, write := false, out := .path, exitCode := true } true [none] none true
+    { FmtIO.ok with output := some .other } =
+    ({ final := .other, printed := [], diff := false }, { FmtEffects.none with stdoutDiff := true }) := by decide
 
 /-! ## de-duplication and order -/
 
